@@ -42,7 +42,7 @@ def run(ctx):
     # transition cover, small alphabet
     scripts = ctx.tlc_gen("MC_GraphStore", GEN.format(maxn=2, maxe=2, labels=L1, types=T2, vals='{"v1"}', maxh=4 if q else 6, full="FALSE", kf="FALSE",
                                                       view="VIEW View", emit="ACTION_CONSTRAINT Emit", inv=IDEAL_INV), "cover", timeout=3000,
-                          workers=1 if q else 8)
+                          workers=1 if q else 8, coverage=True)
     walks = ctx.tlc_gen("MC_GraphStore", GEN.format(maxn=3, maxe=3, labels=L2, types=T2, vals='{"v1", "v2"}', maxh=30, full="TRUE", kf="FALSE",
                                                     view="", emit="", inv="SimEmit"), "walks", simulate=(300 if q else 6000, 31), workers=4)
     ctx.assume("ids <= 3; labels {A,B}; types {T,U}; one property key p; stub relationships are created between live nodes only",
